@@ -521,7 +521,9 @@ func (s *State) diffIOSACLs(al, bl []*cmd, diff []edit.Range) {
 				moveOK = moveOK && action0 == getIOSAction(b)
 				p := s.printNetspocCmd(b)
 				p = stripLogRX.ReplaceAllLiteralString(p, "")
-				if cmdPos, found := delMap[p]; found {
+				// Can't move a line again, which already has been moved,
+				// if identical lines occur multiple times.
+				if cmdPos, found := delMap[p]; found && cmdPos.cmd != nil {
 					moveACL(cmdPos, b, r.LowA, i, moveOK)
 				} else {
 					addACL(b, r.LowA, i)
